@@ -9,7 +9,7 @@ PROP = 'C04'
 LEVEL = 'exploration'
 RULE = ("cases = persistent archive configuration (file x {pickle, json, source}, dir x {dill, fast, compressed, memmode, json, source}, sqlite file) x alias-free "
         "key pool x values from the codec's domain (nested containers, floats incl. inf, bytes, None; mutable containers that the harness mutates in place "
-        "AFTER storing them) x a write history (set, update, del, pop, clear, setdefault; same-size overwrites back to back) cut into segments x writer "
+        "AFTER storing them) x a write history (set, update, del, pop, clear, setdefault; same-size overwrites back to back; bulk updates that FAIL part-way on an unstorable value, the exception caught, after which the writer's own view is what everyone else must see) cut into segments x writer "
         "placement {this process, a forked child per segment that exits afterwards, a separate interpreter launched as a script with bytecode caching on} x "
         "after each segment a set of reader placements {the writer's own handle, a new handle in this process, a new handle in a forked process, a new "
         "handle in a second interpreter (script launch, other hash seed, bytecode on), a handle that interpreter has kept open since the previous segment}. "
@@ -48,7 +48,7 @@ def _close_workers():
         w.close()
 
 
-WOPS = ['set', 'set', 'set', 'set', 'del', 'pop', 'upd', 'clear', 'setdef', 'mut', 'flip']
+WOPS = ['set', 'set', 'set', 'set', 'del', 'pop', 'upd', 'clear', 'setdef', 'mut', 'flip', 'failupd']
 READERS = ['same', 'new', 'fork', 'worker_new', 'worker_kept']
 
 
@@ -76,6 +76,9 @@ def cases(draw, cfg):
                 ops.append(['setdef', draw(ki), draw(vi)])
             elif k == 'mut' and writer == 'inproc':
                 ops.append(['mut', draw(vi)])
+            elif k == 'failupd' and writer == 'inproc' and A.POISON[A.codec(cfg)]:
+                # a bulk write that fails part-way: storable items first, then a value the codec cannot store; the caller catches the exception
+                ops.append(['failupd', [[draw(ki), draw(vi)] for _ in range(draw(st.integers(1, 2)))], draw(ki), draw(st.sampled_from(A.POISON[A.codec(cfg)]))])
             elif k == 'flip':
                 # overwrite with a value of the same encoded size (two different indices of the value pool are not enough: use the digit pool)
                 ops.append(['flipset', draw(ki), draw(st.integers(0, 9))])
@@ -188,9 +191,17 @@ def _history(case, root):
         try:
             if case['writer'] == 'inproc':
                 for op in ops:
-                    if op[0] != 'mut':
+                    if op[0] == 'failupd':
+                        d = _failing_bulk_write(cfg, handle, op, keys, vals, model, si)
+                        classes.append('failing_bulk_write')
+                        if d is not None:
+                            out.append(d)
+                            break
+                    elif op[0] != 'mut':
                         A.apply_write(handle, op, keys, vals)
                         A.model_write(model, op, keys, vals)
+                if out:
+                    break
             else:
                 wops = [op for op in ops if op[0] != 'mut']
                 for op in wops:
@@ -274,6 +285,34 @@ def _history(case, root):
     if flags['overwrite'] and flags['otherproc_read']:
         nt = (cfg, case['writer'], kinds, readers)
     return out, nt, classes
+
+
+def _failing_bulk_write(cfg, handle, op, keys, vals, model, si):
+    """update() with storable items followed by an unstorable one; the exception is caught as a caller would. How much of a failed bulk write
+    sticks is not C04's business (C03): whatever the WRITER's own handle shows afterwards becomes the model every other reader must agree with."""
+    import copy
+    items = [(keys[i], vals[j]) for i, j in op[1]]
+    pk = keys[op[2]]
+    items = [(k, v) for k, v in items if k != pk] + [(pk, A.poison(op[3]))]
+    try:
+        handle.update(dict(items))
+        return None           # stored after all (not this property's concern); nothing to compare against
+    except Exception:
+        pass
+    obs = A.observe(handle, 'items')
+    if obs[0] != 'ok':
+        return Discrepancy('C04/%s/same-reader/raised-after-failed-bulk-write/%s' % (cfg, obs[1]), 'segment %d %r: %s' % (si, op, obs[2]))
+    new = dict(items[:-1])
+    for k, v in obs[1].items():
+        ok = (k in model and A.exact({k: v}, {k: model[k]})) or (k in new and A.exact({k: v}, {k: new[k]}))
+        if not ok:
+            return Discrepancy('C04/%s/same-reader/failed-bulk-write-invented-value' % cfg, 'segment %d %r: writer sees %r = %r' % (si, op, k, v))
+    for k in model:
+        if k not in obs[1]:
+            return Discrepancy('C04/%s/same-reader/failed-bulk-write-lost-key' % cfg, 'segment %d %r: key %r gone from the view of the writer itself' % (si, op, k))
+    model.clear()
+    model.update(copy.deepcopy(obs[1]))
+    return None
 
 
 def noop():
@@ -443,6 +482,6 @@ def _session(case, root):
     return out, nt, classes
 
 
-REQUIRED_CLASSES = ['view:items', 'view:keys', 'view:get', 'overwrite', 'otherproc_read', 'samesize_overwrite', 'mutated_after_store', 'session', 'rebuild:copy', 'rebuild:dill', 'rebuild:cached-load',
+REQUIRED_CLASSES = ['failing_bulk_write', 'view:items', 'view:keys', 'view:get', 'overwrite', 'otherproc_read', 'samesize_overwrite', 'mutated_after_store', 'session', 'rebuild:copy', 'rebuild:dill', 'rebuild:cached-load',
                     'rebuild:pickled-cache', 'writer:inproc', 'writer:forked', 'writer:worker'] + ['reader:' + r for r in READERS] + ['cfg:' + c for c in CONFIGS]
 TRIGGERS = {}
